@@ -247,6 +247,10 @@ UNITS.append(Unit("C12", "jsonargparse._signatures:SignatureArguments._add_signa
 import dataclasses  # noqa: E402
 from contracts.c17 import UNITS as _C17_UNITS  # noqa: E402
 UNITS += [dataclasses.replace(u, prop="C12") for u in _C17_UNITS if u.target.endswith("handle_subcommands")]
+# get_subcommands: which method is the chosen one (the name given, else the first with a section - an empty section, a method without parameters, counts),
+# its parser, its section kept.  Not taken over: `no section of another subcommand remains` (refuted on the shipped code for one case: C17 known finding)
+from contracts.share import without_clauses  # noqa: E402
+UNITS += [without_clauses(u, "C12", ("no-section-of-another-subcommand-remains",), "selection-clauses") for u in _C17_UNITS if u.target.endswith("get_subcommands")]
 
 
 # ------------------------------------------------------------------------------------------------ _add_signature_arguments
@@ -580,3 +584,12 @@ def asc12_raises(ctx, st, exc):
 
 UNITS.append(Unit("C12", "jsonargparse._cli:_add_subcommands", asc12_setup, asc12_post, asc12_raises, max_paths=100,
                   trusted=["_add_component_to_parser and the recursive call by contract", "add_subcommands / add_subcommand by contract"]))
+
+
+from contracts.signature_units import add_class_arguments_unit  # noqa: E402
+UNITS.append(add_class_arguments_unit("C12"))
+
+
+# the values reach the call with the type of their parameter: what Python prints for a number is read back as that number by the loader table
+from contracts.c01 import python_number_text_lemmas  # noqa: E402
+LEMMAS = [python_number_text_lemmas("C12")]
